@@ -41,12 +41,12 @@ type Source struct {
 
 // C17Case is a generated tree + filter table + source list.
 type C17Case struct {
-	Dirs      [][]Entry    `json:"dirs"`
-	Table     []FilterSpec `json:"table"` // applied in order on top of the default table
+	Dirs  [][]Entry    `json:"dirs"`
+	Table []FilterSpec `json:"table"` // applied in order on top of the default table
 	// Table2 is applied to the same converter after it has been used once:
 	// removals and replacements of patterns that are in the table (so that no
 	// new name starts to match); the payload must then follow the new table.
-	Table2 []FilterSpec `json:"table2,omitempty"`
+	Table2    []FilterSpec `json:"table2,omitempty"`
 	Sources   []Source     `json:"sources"`
 	UseBinary bool         `json:"use_binary"` // also compare with curlrevshell -print-ctrl-i
 }
